@@ -99,7 +99,7 @@ def design_for(e, w, style="proc", via_module=False):
     exts = dict([probe_ext(2), probe_ext(3)])
     exts[f"L_a{w}"] = ext_leaf([("a", w)])
     mods = {}
-    decls = [("sig", "x", 2), ("sig", "y", 3), probe("px", "x", 2, 1), probe("py", "y", 3, 2)]
+    decls = [("sig", "x", 2), ("sig", "y", 3), probe("px", "x", 2, 1), probe("py", "y", 3, 0)]  # a zero-valued parameter must be exported as any other
     if via_module:
         inner, _en, _ed = leaf_module("Inner", [("a", w)], tag=5)
         mods["Inner"] = inner
